@@ -291,7 +291,8 @@ pub fn spent_and_expired(node: &Node, for_block_id: u64) -> (Vec<Slip>, Vec<Slip
         .filter(|s| s.amount > 0 && s.block_id + node.ncfg.gp < for_block_id)
         .filter(|s| (0u8..8).any(|i| key(i).0 == s.public_key))
         .collect();
-    expired.sort_by(|a, b| a.utxoset_key.cmp(&b.utxoset_key));
+    // the ones that left the window most recently first (the block at the window edge)
+    expired.sort_by(|a, b| b.block_id.cmp(&a.block_id).then(a.utxoset_key.cmp(&b.utxoset_key)));
     (spent, expired)
 }
 
